@@ -214,19 +214,26 @@ pub fn generate(rng: &mut Rng, opts: &GenOpts, tag: &str) -> Value {
         id: String,
         dur: i64,
         limit: Option<u64>,
+        origin: usize,
+        dest: usize,
     }
     struct Route {
         id: String,
         vt: usize,
         segs: Vec<RSeg>,
+        first_origin: usize,
+        last_dest: usize,
     }
     let mut routes_json = Vec::new();
     let mut routes: Vec<Route> = Vec::new();
     let unused_type = p == Profile::Degenerate && ntypes > 1 && rng.chance(1, 2);
+    // route segment ids only have to be unique within their route
+    let shared_segment_ids = rng.chance(1, 5);
     for r in 0..nroutes {
         let vt = if unused_type { 0 } else { rng.usize(0, ntypes - 1) };
         let nseg = if p == Profile::Degenerate { rng.usize(1, 2) } else { rng.usize(1, 3) };
         let mut cur = rng.usize(0, nloc - 1);
+        let first_origin = cur;
         let mut segs = Vec::new();
         let mut segs_json = Vec::new();
         for s in 0..nseg {
@@ -261,7 +268,7 @@ pub fn generate(rng: &mut Rng, opts: &GenOpts, tag: &str) -> Value {
                     }
                 }
             };
-            let id = format!("{}.R{}.s{}", tag, r, s);
+            let id = if shared_segment_ids { format!("{}.seg{}", tag, s) } else { format!("{}.R{}.s{}", tag, r, s) };
             let mut sj = Map::new();
             sj.insert("id".into(), json!(id));
             sj.insert("order".into(), json!(s));
@@ -275,7 +282,7 @@ pub fn generate(rng: &mut Rng, opts: &GenOpts, tag: &str) -> Value {
                 sj.insert("maximalFormationCount".into(), Value::Null);
             }
             segs_json.push(Value::Object(sj));
-            segs.push(RSeg { id, dur, limit });
+            segs.push(RSeg { id, dur, limit, origin: cur, dest });
             cur = dest;
         }
         let id = format!("{}.R{}", tag, r);
@@ -284,13 +291,58 @@ pub fn generate(rng: &mut Rng, opts: &GenOpts, tag: &str) -> Value {
             "vehicleType": format!("{}.T{}", tag, vt),
             "segments": segs_json,
         }));
-        routes.push(Route { id, vt, segs });
+        routes.push(Route { id, vt, segs, first_origin, last_dest: cur });
     }
 
-    // ---------------------------------------------------------------- departures
     let ndep = rng.usize(1, opts.max_departures.max(1));
     let window_start = DAY0 + rng.range(0, 8) * 3600;
     let window_len: i64 = if ndep > 12 { 18 * 3600 } else { rng.range(2, 14) * 3600 };
+    // ---------------------------------------------------------------- maintenance
+    let with_slots = opts.force_slots
+        || match p {
+            Profile::Maint => true,
+            Profile::Degenerate => rng.chance(1, 3),
+            _ => rng.chance(1, 2),
+        };
+    let mut slots = Vec::new();
+    let mut total_tracks = 0u64;
+    // activities placed so far (start, end, start location, end location): later departures are
+    // placed exactly at or around the connectivity thresholds of earlier ones
+    let mut placed: Vec<(i64, i64, usize, usize)> = Vec::new();
+    let tight = rng.chance(1, 2);
+    if with_slots {
+        let nslots = match p {
+            Profile::Maint => rng.usize(1, 4),
+            _ => rng.usize(1, 2),
+        };
+        let chained = p == Profile::Maint && rng.chance(1, 3);
+        let mut chain_end: Option<(i64, usize)> = None;
+        for m in 0..nslots {
+            let mut start = window_start - 4 * 3600 + rng.range(0, (window_len + 6 * 3600) / grid) * grid;
+            let mut len = if ties { grid * rng.range(1, 8) } else { rng.range(30, 240) * 60 };
+            let mut l = rng.usize(0, nloc - 1);
+            if chained {
+                // short slots one after the other at one location: a vehicle can visit several
+                len = if ties { grid } else { rng.range(20, 60) * 60 };
+                if let Some((e, cl)) = chain_end {
+                    l = cl;
+                    start = e + shunt_min + if ties { 0 } else { rng.range(0, 3) * 600 };
+                }
+                chain_end = Some((start + len, l));
+            }
+            let tracks = rng.range(1, 3) as u64;
+            total_tracks += tracks;
+            placed.push((start, start + len, l, l));
+            slots.push(json!({
+                "id": format!("{}.M{}", tag, m),
+                "location": locs[l],
+                "start": iso(start),
+                "end": iso(start + len),
+                "trackCount": tracks,
+            }));
+        }
+    }
+    // ---------------------------------------------------------------- departures
     let heavy = rng.chance(1, 4);
     let mut departures = Vec::new();
     let mut total_need: u64 = 0;
@@ -298,6 +350,30 @@ pub fn generate(rng: &mut Rng, opts: &GenOpts, tag: &str) -> Value {
     for d in 0..ndep {
         let route = &routes[rng.usize(0, routes.len() - 1)];
         let mut t = window_start + rng.range(0, window_len / grid) * grid;
+        if tight && !placed.is_empty() && rng.chance(1, 2) {
+            let total: i64 = route.segs.iter().map(|x| x.dur).sum::<i64>() + (route.segs.len() as i64 - 1) * shunt_min;
+            let &(a_start, a_end, a_from, a_to) = rng.pick(&placed);
+            let offsets_same: Vec<i64> = if ties { vec![0, shunt_min] } else { vec![0, shunt_min, (shunt_min - 60).max(0), shunt_min + 60] };
+            let offsets_diff: Vec<i64> = if ties {
+                vec![0, shunt_dh, 2 * shunt_dh, shunt_min + shunt_dh]
+            } else {
+                vec![0, shunt_dh, 2 * shunt_dh, shunt_min + shunt_dh, (2 * shunt_dh - 60).max(0), 2 * shunt_dh + 60, shunt_min]
+            };
+            if rng.chance(1, 2) {
+                // start right after the earlier activity
+                let o = route.first_origin;
+                let off = if a_to == o { *rng.pick(&offsets_same) } else { durations[a_to][o] + *rng.pick(&offsets_diff) };
+                t = a_end + off;
+            } else if route.segs.len() == 1 {
+                // end right before the earlier activity
+                let d = route.last_dest;
+                let off = if d == a_from { *rng.pick(&offsets_same) } else { durations[d][a_from] + *rng.pick(&offsets_diff) };
+                let cand = a_start - off - total;
+                if cand > window_start - 6 * 3600 {
+                    t = cand;
+                }
+            }
+        }
         let (capacity, seats, tlimit) = type_caps[route.vt];
         let mut segs = Vec::new();
         for (s, rs) in route.segs.iter().enumerate() {
@@ -357,6 +433,7 @@ pub fn generate(rng: &mut Rng, opts: &GenOpts, tag: &str) -> Value {
                 "passengers": passengers,
                 "seated": seated,
             }));
+            placed.push((t, t + rs.dur, rs.origin, rs.dest));
             t += rs.dur;
             n_segments += 1;
         }
@@ -367,34 +444,6 @@ pub fn generate(rng: &mut Rng, opts: &GenOpts, tag: &str) -> Value {
         }));
     }
 
-    // ---------------------------------------------------------------- maintenance
-    let with_slots = opts.force_slots
-        || match p {
-            Profile::Maint => true,
-            Profile::Degenerate => rng.chance(1, 3),
-            _ => rng.chance(1, 2),
-        };
-    let mut slots = Vec::new();
-    let mut total_tracks = 0u64;
-    if with_slots {
-        let nslots = match p {
-            Profile::Maint => rng.usize(1, 4),
-            _ => rng.usize(1, 2),
-        };
-        for m in 0..nslots {
-            let start = window_start - 4 * 3600 + rng.range(0, (window_len + 6 * 3600) / grid) * grid;
-            let len = if ties { grid * rng.range(1, 8) } else { rng.range(30, 240) * 60 };
-            let tracks = rng.range(1, 3) as u64;
-            total_tracks += tracks;
-            slots.push(json!({
-                "id": format!("{}.M{}", tag, m),
-                "location": locs[rng.usize(0, nloc - 1)],
-                "start": iso(start),
-                "end": iso(start + len),
-                "trackCount": tracks,
-            }));
-        }
-    }
     let maintenance_param: Option<u64> = match rng.below(if p == Profile::Maint { 5 } else { 6 }) {
         0 => None,
         1 => Some(0),
